@@ -135,8 +135,14 @@ func (c *Ctx) genAttrs(e *Entry, o GenOpts) {
 	e.Sec, e.Nsec = c.genTime(o)
 	if o.Xattrs && c.Chance(1, 10) {
 		e.Xattrs = map[string]string{}
-		for i := 0; i < 1+c.Intn(3); i++ {
-			e.Xattrs[fmt.Sprintf("user.k%d", c.Intn(5))] = c.segment()
+		// keys of different lengths whose bytewise order disagrees with length-first order
+		pool := []string{"user.k0", "user.k1", "user.k12", "security.capability", "security.selinux", "a", "ab", "b", "user.", "trusted.overlay.opaque", "user.K", "z"}
+		for i := 0; i < 1+c.Intn(4); i++ {
+			k := pool[c.Intn(len(pool))]
+			if c.Chance(1, 5) {
+				k = "user." + c.segment()
+			}
+			e.Xattrs[k] = c.segment()
 		}
 	}
 }
